@@ -794,3 +794,55 @@ Theorem C01_F10_engine_refuted :
   = [(oid 1 0, true)] /\
   same_result_b (f10_P 0) inc scr = true.
 Proof. exact F10_engine_refuted. Qed.
+
+(* ------------------------------------------------------------------------------------------ *)
+(* Dynamic plans, the other direction: a build from scratch ends in a finished state           *)
+(* ------------------------------------------------------------------------------------------ *)
+(* [ustat_later_b U]: the static files that a step declares are inputs of later steps only
+   (plan.py comes first and declares the sources).  For ALL programs, plan behaviours, such
+   universes and worlds: the build of the world on nothing ends in a state with the defining
+   equations [Finished_p], with the sources and the environment of the world.  Invariant [Inv]
+   along the pass (proofs/EnginePlanProofs.v): steps that did not have their turn are PENDING
+   without trace, links are exactly what SUCCEEDED creators defined, SUCCEEDED steps are trusted,
+   the equation holds at every step that had its turn and survives later runs (loc3_frame), the
+   re-declaration of static files marks nobody (mark_pointwise_id), the cleanup pass changes
+   nothing that the equations look at. *)
+Theorem C01_plan_scratch_build_ends_finished :
+  forall run plan (U : universe) (w : world),
+    wf_u U = true -> ustat_later_b U = true ->
+    Finished_p run plan U (build_world_p run plan U w (p_empty U)) /\
+    (forall p, is_output (uproj U) p = false ->
+               fs (pbase (build_world_p run plan U w (p_empty U))) p = fst w p) /\
+    (forall n, ev (pbase (build_world_p run plan U w (p_empty U))) n = snd w n).
+Proof.
+  intros run plan U w H1 H2.
+  exact (scratch_finished run plan U (wf_u_WFU U H1) (ustat_later_b_ok U H2) w).
+Qed.
+
+(* Hence [Finished_p] characterises the from-scratch result: ANY state that satisfies the
+   equations and has the sources and environment of [w] -- whatever history produced it -- has the
+   trusted region, the states and the outputs of the build of [w] on nothing. *)
+Theorem C01_plan_finished_state_is_scratch_result :
+  forall run plan (U : universe) (w : world) (y : psys),
+    wf_u U = true -> ustat_later_b U = true ->
+    Finished_p run plan U y -> has_world U w y ->
+    same_result_p U y (build_world_p run plan U w (p_empty U)).
+Proof. exact finished_is_scratch. Qed.
+
+(* C01_plan_full with one hypothesis left: for ALL histories of worlds, if the last build ends
+   in a state with the defining equations, it is equivalent to the build from scratch (every
+   build leaves the sources and environment of its world: build_world_p_world).  The hypothesis
+   is exactly what fails in the two refuting witnesses above (F9 = D43, D4): the only way the
+   engine can differ from a build from scratch is to stop in a state that is not finished. *)
+Theorem C01_plan_history_finished_implies_scratch_partial :
+  forall run plan (U : universe),
+    wf_u U = true -> ustat_later_b U = true ->
+    forall (ws : list world) (w : world),
+      let inc := build_world_p run plan U w
+                   (fold_left (fun s x => build_world_p run plan U x s) ws (p_empty U)) in
+      Finished_p run plan U inc ->
+      same_result_p U inc (build_world_p run plan U w (p_empty U)).
+Proof. exact plan_history_finished_implies_scratch. Qed.
+
+Example C01_ustat_later_uF9 : ustat_later_b uF9 = true.
+Proof. vm_compute. reflexivity. Qed.
